@@ -38,9 +38,29 @@ def enc_tensor(t) -> str:
     return shape + ":" + ",".join(fq(v) for v in flat)
 
 
+_VOCAB: dict = {}
+
+
+def enc_sentence(s: str) -> str:
+    """sentence -> 1-D int tensor of token ids (`0:` when empty); ids from a process-global vocabulary."""
+    ids = [_VOCAB.setdefault(tok, len(_VOCAB)) for tok in s.split()]
+    return f"{len(ids)}:" + ",".join(str(i) for i in ids)
+
+
 def enc_val(v) -> str:
     if isinstance(v, torch.Tensor):
         return enc_tensor(v)
+    if isinstance(v, str) and (" " in v or v == ""):
+        return enc_sentence(v)
+    if isinstance(v, (list, tuple)) and len(v) > 0 and all(isinstance(x, str) for x in v):
+        return "[" + ";".join(enc_sentence(x) for x in v) + "]"
+    if isinstance(v, (list, tuple)) and len(v) > 0 and all(isinstance(x, (list, tuple, str)) for x in v) and any(isinstance(x, (list, tuple)) for x in v):
+        # BLEU targets: every candidate's reference group is followed by the terminator tensor `1:-1`
+        parts = []
+        for grp in v:
+            refs = [grp] if isinstance(grp, str) else list(grp)
+            parts += [enc_sentence(r) for r in refs] + ["1:-1"]
+        return "[" + ";".join(parts) + "]"
     if isinstance(v, (list, tuple)) and (len(v) == 0 or isinstance(v[0], torch.Tensor)):
         return "[" + ";".join(enc_tensor(x) for x in v) + "]"
     if v is None:
